@@ -42,7 +42,7 @@ def main():
             name="lean4-proof+correspondence",
             path="check.py",
             serves_properties=sorted(registry.PROPS),
-            kind_free_text="Lean 4 theorems about executable models (lean/PlumVerif), translator for tables (tools/gen_tables.py), "
+            kind_free_text="Lean 4 theorems about executable models (lean/PlumVerif), translators run on every check: tables and behavioural probe tables (tools/gen_tables.py), source text of functions and classes -> Lean definitions (tools/py2lean.py, tools/py2lean_types.py) with kernel-checked `translated = model` theorems (lean/PlumVerif/Props/Tie*.lean), "
                            "correspondence harness under a virtual-time asyncio loop (harness/), native line-protocol driver (lean/Main.lean)",
         )],
         checks=checks,
